@@ -4,7 +4,7 @@ from hc_oracles import send_buffer_oracle, completion_oracle
 
 PROP = "C20"
 COQ_FILE = "props/C20.v"
-THEOREMS = ["C20_exact", "C20_zero", "C20_acknowledge_total", "C20_drop_stale_exact", "C20_hc_reports_counter"]
+THEOREMS = ["C20_exact", "C20_zero", "C20_acknowledge_total", "C20_drop_stale_exact", "C20_hc_reports_counter", "C20_half_connection_exact"]
 USES_FLOATS = True
 NEEDS_RELEASE = True
 ASSUMPTIONS = [
